@@ -239,6 +239,19 @@ def r2_frame(P, rep, ctx):
         r = f.refuses_when(lits, targets=[i for i, v in f.returns() if v is None or f.x_at(i, v) not in accepted] + [f.g.raise_exit])
         rep.check(bool(r), "C14.R2", fi.qual, f"{kind_} values are merged into a fresh {kind_} ({accepted[0]})", fi.loc(), construct=f"{kind_} merge",
                   message=f"the {kind_} case of _update_field is not one of {accepted}: order/non-mutation of operands not guaranteed")
+    # nested models merge recursively when EITHER operand's partial class is a subclass of the other's (one direction alone
+    # is enough: a child-schema value merges into a parent-schema value and vice versa)
+    rec = [i for i, c, b in f.call_sites("__o.merge_with(__n, allow_overwrite=__a, _path=__p)")]
+    if rec:
+        A = f"issubclass(type(self._to_partial_value({vn})), type(self._to_partial_value({vo})))"
+        B = f"issubclass(type(self._to_partial_value({vo})), type(self._to_partial_value({vn})))"
+        for x, y, desc in ((A, B, "new is a subclass of old"), (B, A, "old is a subclass of new")):
+            r = f.refuses_when([[x], [f"not ({y})"]], targets=rec)
+            if r is None:
+                rep.info(f"C14.R2: the subclass tests of _update_field are spelled differently from the pinned tree (no verdict on the {desc} case)")
+                continue
+            rep.check(r is False, "C14.R2", fi.qual, f"nested models merge recursively when only {desc}", fi.loc(rec[0]), construct=f"recursive merge when {desc}",
+                      message=f"the recursive merge of nested models is not reached when only `{desc}` holds (the two subclass tests are no longer alternatives): a nested value of a child / parent schema is not merged field by field any more but replaced or refused")
 
 
 # ------------------------------------------------------------------------------------------- R3
